@@ -126,7 +126,7 @@ def interleave(rnd, lists):
     return out
 
 
-def forest_scenarios(n, seed, maxnodes=4, maxtrees=5, ug=True, batches=(1, 2, 3, BIG), tag="c09"):
+def forest_scenarios(n, seed, maxnodes=4, maxtrees=5, ug=True, batches=(1, 2, 3, 4, 5, 6, 7, BIG), tag="c09"):
     """stores made of several traces (random shapes, possibly repeated) over two workflow names, ingested in an
     interleaved order, each with a second presentation (other order, other batch size) on the same data"""
     rnd = random.Random(repr((tag, seed)))
@@ -144,8 +144,17 @@ def forest_scenarios(n, seed, maxnodes=4, maxtrees=5, ug=True, batches=(1, 2, 3,
             nm = [name] if rnd.random() < 0.7 else [name, "other"]
             per.append(tree_spans((sh[0], kids), "j%d" % (i + 1), name, "t%d_" % (i + 1), t0=2 + rnd.randrange(3),
                                   names=nm))
-        for v in range(2):
-            st = interleave(rnd, per) if v else [s for p in per for s in p]
+        for v in range(4):
+            # presentations of the same data: trace by trace, interleaved, any order, children before their parents
+            if v == 0:
+                st = [s for p in per for s in p]
+            elif v == 1:
+                st = interleave(rnd, per)
+            elif v == 2:
+                st = [s for p in per for s in p]
+                rnd.shuffle(st)
+            else:
+                st = interleave(rnd, [list(reversed(p)) for p in per])
             out.append({"B": rnd.choice(batches), "buf": 0, "group": k,
                         "runs": [{"ing": True, "ug": ug, "spans": st}]})
     return out
